@@ -727,6 +727,24 @@ pub fn run(ctx: &Ctx) {
             })
         })
         .collect();
+    // the history of the *builder*: symbols that were defined before with other values
+    let redefined = redefined_symbol_cases();
+    ctx.enumerate(
+        "redefined-symbols",
+        redefined.len() as u64,
+        true,
+        |i, acc| {
+            let (earlier, case) = &redefined[i as usize];
+            acc.cell(&format!("redefined-symbols:way{}", earlier[0].0), true);
+            if i % 61 == 0 {
+                acc.sample("redefined-symbols", || format!("earlier s = {}, then {}", show_value(&earlier[0].2), case.render()).chars().take(300).collect());
+            }
+            check_redefined(earlier, case)
+        },
+        |i| json!({"redefined_symbols": i}),
+        "redefined-symbols",
+    );
+
     ctx.enumerate(
         "twin-input-histories",
         19,
@@ -881,7 +899,64 @@ pub fn run(ctx: &Ctx) {
     );
 }
 
+/// Rulesets whose symbols were defined before with other values (through every way a builder takes symbols): the
+/// ruleset resolves each name to the value registered last, and nothing else about it may remember the earlier one.
+/// Rules call a cacheable function with the bare symbol, with a path into it and with literals equal to the earlier and
+/// to the final value, in every rotation.
+pub fn redefined_symbol_cases() -> Vec<(Vec<(u8, String, Value)>, SetCase)> {
+    let m = |pairs: &[(&str, i128)]| crate::pool::map(&pairs.iter().map(|(k, v)| (*k, Value::Int(*v))).collect::<Vec<_>>());
+    let lit = |v: &Value| Expr::Value(v.clone());
+    let pairs: Vec<(Value, Value)> = vec![
+        (Value::Int(10), Value::Int(20)),
+        (Value::String("old".into()), Value::String("new".into())),
+        (m(&[("gold", 30), ("silver", 20)]), m(&[("gold", 35), ("bronze", 5)])),
+        (m(&[("gold", 30)]), m(&[("gold", 30), ("silver", 20)])),
+        (Value::Vec(vec![Value::Int(1), Value::Int(2), Value::Int(3)]), Value::Vec(vec![Value::Int(9)])),
+        (m(&[("gold", 30)]), Value::Int(1)),
+        (Value::None, Value::Int(2)),
+        (Value::Int(2), Value::None),
+    ];
+    let mut out = vec![];
+    for (old, new) in &pairs {
+        for way in 0..6u8 {
+            let mut fns = BTreeMap::new();
+            fns.insert("fa".to_string(), me::FnSpec { cacheable: true, fail_on: vec![], fail_first: 0, uncacheable_after: 0 });
+            fns.insert("fd".to_string(), me::FnSpec { cacheable: true, fail_on: vec![], fail_first: 0, uncacheable_after: 0 });
+            let mut symbols = BTreeMap::new();
+            symbols.insert("s".to_string(), new.clone());
+            symbols.insert("other".to_string(), Value::Int(7));
+            let rules: Vec<(String, Expr)> = vec![
+                ("symbol".into(), Expr::symbol("s")),
+                ("call-symbol".into(), Expr::func("fa", Expr::symbol("s"))),
+                ("call-earlier-value".into(), Expr::func("fa", lit(old))),
+                ("call-final-value".into(), Expr::func("fa", lit(new))),
+                ("call-symbol-again".into(), Expr::Vec(vec![Expr::func("fa", Expr::symbol("s")), Expr::func("fd", Expr::symbol("s")), Expr::func("fd", lit(old))])),
+                ("has-silver".into(), Expr::contains(Expr::symbol("s"), Expr::value("silver".to_string()))),
+                ("other".into(), Expr::func("fa", Expr::symbol("other"))),
+            ];
+            for r in 0..rules.len() {
+                let mut rs = rules.clone();
+                rs.rotate_left(r);
+                let earlier = vec![(way, "s".to_string(), old.clone()), (way, "gone".to_string(), Value::Int(1)), ((way + 1) % 3 + (way / 3) * 3, "s".to_string(), old.clone())];
+                out.push((earlier, SetCase { spec: SetSpec { rules: rs, fns: fns.clone(), symbols: symbols.clone(), suspend: 0 }, inputs: vec![Value::None, Value::None] }));
+            }
+        }
+    }
+    out
+}
+
+pub fn check_redefined(earlier: &[(u8, String, Value)], case: &SetCase) -> Verdict {
+    probe::with_earlier_symbols(earlier.to_vec(), || {
+        super::c09::check(case)?;
+        super::c11::check(case)
+    })
+    .map_err(|i| Issue::new(format!("history:redefined-symbols:{}", i.sig), format!("symbols defined earlier as {:?} and then redefined: {}", earlier.iter().map(|(w, k, v)| format!("way {w}: {k} = {}", show_value(v))).collect::<Vec<_>>(), i.msg)))
+}
+
 pub fn replay(j: &serde_json::Value) -> Option<Verdict> {
+    if let Some(i) = j.get("redefined_symbols").and_then(|i| i.as_u64()) {
+        return redefined_symbol_cases().get(i as usize).map(|(e, c)| check_redefined(e, c));
+    }
     if let Some(i) = j.get("twin_inputs").and_then(|x| x.as_u64()) {
         return Some(check_twin_inputs(i as usize));
     }
